@@ -459,7 +459,25 @@ func genHistory(rng *rand.Rand) *history {
 					id = a
 				}
 			}
-			els = append(els, ldiff.Element{Id: id, Head: ldiffkit.RandomHead(rng)})
+			head := ldiffkit.RandomHead(rng)
+			if cur, ok := model[id]; ok && rng.Intn(2) == 0 {
+				// an existing id with its unchanged head inside a batch that also brings new ids (this is what a
+				// start-up refill over a live index looks like; added after seeded change C08-2 was missed)
+				head = cur
+			}
+			els = append(els, ldiff.Element{Id: id, Head: head})
+		}
+		if rng.Intn(4) == 0 {
+			// a refill: every current element with its current head, new ids interleaved
+			var cur []ldiff.Element
+			for id, hd := range model {
+				cur = append(cur, ldiff.Element{Id: id, Head: hd})
+			}
+			sort.Slice(cur, func(i, j int) bool { return cur[i].Id < cur[j].Id })
+			all := append(els, cur...)
+			rng.Shuffle(len(all), func(i, j int) { all[i], all[j] = all[j], all[i] })
+			// a duplicate id inside one batch: the last occurrence wins in the index and in the model alike
+			els = all
 		}
 		emit(op{Kind: "set", Els: els})
 	}
